@@ -151,6 +151,15 @@ def ops11 : List (String × Op) := [
     let init ← field j "init" >>= decKt scQ
     let cfg ← field j "cfg" >>= decCfg scQ
     .ok (Json.mkObj [("accept", Json.bool (validate rops rconsts cfg alg X init))])),
+  -- the same argument checks on the Float request of a whole run: lets the harness tell "the model
+  -- refuses the request" from "the scripted direction service ran dry" (the implementation raised in
+  -- the middle of a run, so fewer directions were recorded than the model asks for)
+  ("c11_validate_float", fun j => do
+    let alg ← field j "alg" >>= decAlg
+    let X ← field j "data" >>= decData scF
+    let init ← field j "init" >>= decKt scF
+    let cfg ← field j "cfg" >>= decCfg scF
+    .ok (Json.mkObj [("accept", Json.bool (validate fops fconsts cfg alg X init))])),
   -- Pi / Phi / KKT / multiplicative update of one mode (the model as given: weights are NOT
   -- redistributed here, the harness calls the helpers of cp_apr.py on the same model)
   ("c11_mu_mode_float", fun j => do
